@@ -2,6 +2,7 @@ package c02
 
 import (
 	"fmt"
+	"math/big"
 	"math/rand/v2"
 	"strconv"
 	"strings"
@@ -45,6 +46,15 @@ type Case struct {
 	Dirty string   `json:"dirty,omitempty"` // the one construct of the avoid set this text contains
 	Feats []string `json:"feats,omitempty"`
 	Long  bool     `json:"long,omitempty"` // a long text: fewer deliveries per cut
+	Big   *Big     `json:"big,omitempty"`  // a text around one token longer than the 64 KiB read block (rendered at run time)
+}
+
+// Big describes a text holding one very long token.
+type Big struct {
+	Kind string `json:"kind"` // str sym pipe int bits
+	Len  int    `json:"len"`  // length of the token body in bytes (about)
+	Wrap int    `json:"wrap"` // 0 bare, 1 inside a list, 2 quoted, 3 between other forms
+	Pad  int    `json:"pad"`  // leading blanks, shifts which byte of the token meets the block boundary
 }
 
 var bases = []int{2, 8, 10, 16, 36}
@@ -53,17 +63,14 @@ var floatFormats = []string{"short-float", "single-float", "double-float", "long
 // dirtyKinds is the avoid set: constructs the pinned tree already misreads.
 // Each is produced in a minority of cases only, one kind per case.
 var dirtyKinds = []string{
-	"prefix-nonsymbol-target", // 'nil 't '12 '"s" '#\a ''a '#(1)
-	"float-leading-point",     // .5
+	"float-leading-point", // .5
 	"integer-point-nondecimal-base",
-	"digits-outside-read-base", // 6 under *read-base* 2 is read as a float
-	"barred-dot-in-list",       // (a |.| b) is read as (a . b)
 }
 
 // avoidedKind tells that a token kind belongs to the avoid set.
 func avoidedKind(kind string) bool {
 	switch kind {
-	case "float-leading-point", "integer-point-nondecimal-base", "digits-outside-read-base":
+	case "float-leading-point", "integer-point-nondecimal-base":
 		return true
 	}
 	return false
@@ -88,6 +95,8 @@ type builder struct {
 	pin   bool     // current top-level form is pinned
 	force []string // kinds of the top-level forms (probe block), "" = free choice
 	dot   bool     // the next list is a dotted pair
+	cpct  int      // chance (percent) of a comment in a gap
+	crlf  bool     // every line end is CR LF
 }
 
 func (b *builder) emit(kind, text string) *Seg {
@@ -104,12 +113,21 @@ var wsChoices = []string{" ", " ", " ", "  ", "\n", "\t", " \n ", "\r\n", "\n\n"
 
 var commentWords = []string{"note", "x y", "(a b", "\"q", "'z", "#\\a", "fixme: 1.5", "é日本", "", "a | b", "; more", "#x1F", "`,@"}
 
-func (b *builder) ws() { b.emit("ws", fwPick(b.r, wsChoices)) }
+func (b *builder) ws() {
+	w := fwPick(b.r, wsChoices)
+	if b.crlf {
+		w = strings.ReplaceAll(strings.ReplaceAll(w, "\r\n", "\n"), "\n", "\r\n")
+	}
+	b.emit("ws", w)
+}
 
 func (b *builder) comment() {
 	if b.r.IntN(2) == 0 {
 		txt := ";" + strings.Repeat(";", b.r.IntN(2)) + " " + fwPick(b.r, commentWords)
 		txt = strings.ReplaceAll(txt, "\n", " ")
+		if b.crlf {
+			txt += "\r"
+		}
 		b.emit("lcom", txt+"\n")
 		b.feat("line-comment")
 		return
@@ -153,10 +171,13 @@ func (b *builder) gap(nextOpen bool) {
 	if b.last != "ws" {
 		b.ws()
 	}
-	if b.r.IntN(100) < 12 {
+	if b.r.IntN(100) < b.cpct {
 		b.comment()
 		if b.r.IntN(2) == 0 {
 			b.ws()
+		}
+		if b.cpct > 30 && b.r.IntN(3) == 0 {
+			b.comment()
 		}
 	}
 }
@@ -167,11 +188,11 @@ var words = []string{
 	"foo", "bar", "car", "cdr", "lambda", "defun", "x", "y", "list", "setq", "a1", "b-2", "*print-base*", "+const+",
 	"1+", "1-", "<=", ">=", "/=", "&rest", "&optional", "at", "cat", "not", "let", "unit", "quux", "Foo", "BAR",
 	"make-instance", "abc", "face", "dead", "e", "d3", "z", "zz-top", "a.b", "$v", "%p", "^up", "_u", "~w", "=", "<", "*", "+", "-", "/",
-	"set", "left", "tt", "nil2", "nill", "f", "1e", "e1", "1d", "x1f", "10a",
+	"set", "left", "tt", "nil2", "nill", "f", "1e", "e1", "1d", "x1f", "10a", "null?", "a?b", "?x", "eq?",
 }
 
 const symFirst = "abcdefghijklmnopqrstuvwxyzABCDEFGHIJKLMNOPQRSTUVWXYZ*+-/<=>$%^_~"
-const symRest = "abcdefghijklmnopqrstuvwxyzABCDEFGHIJKLMNOPQRSTUVWXYZ0123456789*+-<=>$%^_~."
+const symRest = "abcdefghijklmnopqrstuvwxyzABCDEFGHIJKLMNOPQRSTUVWXYZ0123456789*+-<=>$%^_~.?"
 
 func (b *builder) symbolText() string {
 	for {
@@ -338,9 +359,9 @@ func (b *builder) token() string {
 		if avoidedKind(kind) {
 			continue
 		}
-		if b.dirty == "digits-outside-read-base" && !b.used && b.base < 10 && b.r.IntN(2) == 0 {
+		if b.base < 10 && b.r.IntN(100) < 6 {
+			// decimal digits that are not digits of *read-base*: a symbol
 			txt = b.sign(30) + b.decDigits(b.r.IntN(3)) + string(rune('0'+b.base+b.r.IntN(10-b.base)))
-			b.used = true
 		}
 		if b.dirty == "float-leading-point" && !b.used && b.r.IntN(2) == 0 {
 			txt = b.sign(30) + "." + b.decDigits(1+b.r.IntN(3))
@@ -471,7 +492,7 @@ func (b *builder) pipeLeaf() string {
 		mark := len(b.buf)
 		nseg := len(b.segs)
 		v := b.quoted("pipe", '|')
-		if strings.EqualFold(v, "t") || strings.EqualFold(v, "nil") || v == "." {
+		if strings.EqualFold(v, "t") || strings.EqualFold(v, "nil") {
 			b.buf = b.buf[:mark]
 			b.segs = b.segs[:nseg]
 			continue
@@ -539,15 +560,30 @@ func (b *builder) rintLeaf() string {
 	}
 	sg := b.sign(15)
 	ds := b.digits(radix, b.intLen())
-	s := b.emit("rint", head+sg+ds)
-	s.R = len(head) - 1
-	b.feat("radix-integer")
 	x, _ := parseBig(ds, radix)
 	if sg == "-" {
 		x.Neg(x)
 	}
-	b.segs[len(b.segs)-1].W = showInt(x)
-	return showInt(x)
+	want := showInt(x)
+	if b.r.IntN(100) < 18 {
+		// a ratio after a radix prefix: #x1/f
+		den := b.digits(radix, 1+b.r.IntN(4))
+		if d, _ := parseBig(den, radix); d.Sign() != 0 {
+			ds += "/" + den
+			q := new(big.Rat).SetFrac(x, d)
+			if q.IsInt() {
+				want = showInt(q.Num())
+			} else {
+				want = "r:" + q.Num().String() + "/" + q.Denom().String()
+			}
+			b.feat("radix-ratio")
+		}
+	}
+	s := b.emit("rint", head+sg+ds)
+	s.R = len(head) - 1
+	s.W = want
+	b.feat("radix-integer")
+	return want
 }
 
 func (b *builder) bitsLeaf() string {
@@ -769,30 +805,38 @@ func (b *builder) prefixForm(maxDepth int, forced string) string {
 		b.feat("prefix-then-space")
 	}
 	var target string
+	pick := b.r.IntN(100)
 	switch {
-	case b.dirty == "prefix-nonsymbol-target" && !b.used:
-		b.used = true
-		switch b.r.IntN(7) {
-		case 0:
-			target, _, _ = b.tokenSeg("nil")
-		case 1:
-			target, _, _ = b.tokenSeg("t")
-		case 2:
-			target, _, _ = b.tokenSeg(fwPick(b.r, []string{"10", "11", "101", "-1"}))
-		case 3:
+	case pick < 30 && !(p.name == "backquote" && forced != ""):
+		// any leaf or a nested prefix: the prefix applies to whatever object follows
+		switch q := b.r.IntN(100); {
+		case q < 40:
+			for {
+				txt := b.atomText()
+				_, kind, ok := classify(txt, b.base, b.ff)
+				if !ok || avoidedKind(kind) || txt[0] == '@' && (p.name == "comma" || p.name == "commaat") {
+					continue
+				}
+				target, _, _ = b.tokenSeg(txt)
+				break
+			}
+		case q < 52:
 			target = b.stringLeaf()
-		case 4:
+		case q < 62:
 			target = b.charLeaf()
-		case 5:
-			b.emit("prefix", "'")
-			b.pend++
-			w, _, _ := b.tokenSeg("zz")
-			target = "{quote " + w + "}"
-		default:
-			b.pend = 0
+		case q < 70:
+			target = b.pipeLeaf()
+		case q < 78:
+			target = b.rintLeaf()
+		case q < 84:
+			target = b.bitsLeaf()
+		case q < 92 && 1 < maxDepth:
 			target = b.vectorForm(1)
+		default:
+			target = b.prefixForm(1, "quote")
 		}
-	case maxDepth <= 1 || b.r.IntN(100) < 55 && !(p.name == "backquote" && forced != ""):
+		b.feat("prefix-target:any-object")
+	case maxDepth <= 1 || pick < 70 && !(p.name == "backquote" && forced != ""):
 		// symbol target (must denote a symbol under the current *read-base*)
 		for {
 			txt := b.symbolText()
@@ -828,11 +872,66 @@ func (b *builder) prefixForm(maxDepth int, forced string) string {
 
 // literalLeaf emits a bare token or a |symbol| given as text.
 func (b *builder) literalLeaf(txt string) string {
-	if 2 <= len(txt) && txt[0] == '|' && txt[len(txt)-1] == '|' {
-		s := b.emit("pipe", txt)
-		s.W = "s:" + strconv.Quote(txt[1:len(txt)-1])
-		b.feat("pipe-symbol")
+	for _, pre := range []struct{ txt, name string }{{"#'", "function"}, {"'", "quote"}, {"`", "backquote"}} {
+		if strings.HasPrefix(txt, pre.txt) && len(pre.txt) < len(txt) {
+			b.emit("prefix", pre.txt)
+			b.pend++
+			b.feat("prefix:" + pre.name)
+			w := b.literalLeaf(txt[len(pre.txt):])
+			b.pend = 0
+			return "{" + pre.name + " " + w + "}"
+		}
+	}
+	if strings.HasPrefix(txt, `#\u`) && 3 < len(txt) {
+		// #\uXXXX
+		n, _ := strconv.ParseUint(txt[3:], 16, 32)
+		s := b.emit("char", txt)
+		s.W = fmt.Sprintf("c:U+%04X", n)
+		b.feat("char:hex")
 		return s.W
+	}
+	if 2 < len(txt) && txt[0] == '#' && strings.IndexByte("bBoOxX", txt[1]) >= 0 {
+		// #b101 or #x1/f
+		radix := map[byte]int{'b': 2, 'o': 8, 'x': 16}[txt[1]|0x20]
+		num, den := txt[2:], "1"
+		if i := strings.IndexByte(num, '/'); 0 < i {
+			num, den = num[:i], num[i+1:]
+		}
+		x, _ := parseBig(num, radix)
+		d, _ := parseBig(den, radix)
+		s := b.emit("rint", txt)
+		s.R = 1
+		if q := new(big.Rat).SetFrac(x, d); q.IsInt() {
+			s.W = showInt(q.Num())
+		} else {
+			s.W = "r:" + q.Num().String() + "/" + q.Denom().String()
+		}
+		b.feat("radix-integer")
+		return s.W
+	}
+	if 2 <= len(txt) && (txt[0] == '|' || txt[0] == '"') && txt[len(txt)-1] == txt[0] {
+		// |symbol| or "string"; the escapes \n and \t are understood
+		var val []byte
+		var xs []int
+		start := len(b.buf)
+		for i := 1; i < len(txt)-1; i++ {
+			if txt[i] == '\\' && i+2 < len(txt) {
+				xs = append(xs, start+i+1)
+				i++
+				val = append(val, map[byte]byte{'n': '\n', 't': '\t'}[txt[i]])
+				continue
+			}
+			val = append(val, txt[i])
+		}
+		kind := "pipe"
+		w := "s:" + strconv.Quote(string(val))
+		if txt[0] == '"' {
+			kind, w = "str", strconv.Quote(string(val))
+		}
+		s := b.emit(kind, txt)
+		s.X, s.W = xs, w
+		b.feat(map[string]string{"pipe": "pipe-symbol", "str": "string"}[kind])
+		return w
 	}
 	w, _, ok := b.tokenSeg(txt)
 	if !ok {
@@ -937,7 +1036,15 @@ func (b *builder) formOf(kind string, maxDepth int) string {
 
 // build renders a whole text of nForms top-level forms.
 func build(r *rand.Rand, base int, ff, dirty string, nForms, maxDepth int, force []string) Case {
-	b := &builder{r: r, base: base, ff: ff, dirty: dirty, feats: map[string]bool{}, form: -1, force: force}
+	b := &builder{r: r, base: base, ff: ff, dirty: dirty, feats: map[string]bool{}, form: -1, force: force, cpct: 12}
+	switch v := r.IntN(100); {
+	case v < 10:
+		b.cpct = 70 // comments at most gaps: ; and #| |# next to every kind of token
+		b.feat("comment-heavy")
+	case v < 18:
+		b.crlf = true
+		b.feat("crlf")
+	}
 	if 0 < len(force) {
 		nForms = len(force)
 	}
@@ -960,12 +1067,8 @@ func build(r *rand.Rand, base int, ff, dirty string, nForms, maxDepth int, force
 		}
 		if i == dirtyAt && !b.used {
 			switch dirty {
-			case "prefix-nonsymbol-target":
-				kind = fwPick(r, []string{"quote", "function", "backquote", "quote"})
-			case "float-leading-point", "integer-point-nondecimal-base", "digits-outside-read-base":
+			case "float-leading-point", "integer-point-nondecimal-base":
 				kind = "token"
-			case "barred-dot-in-list":
-				kind = "barred-dot-list"
 			}
 		}
 		if 0 < i {
@@ -1013,6 +1116,86 @@ func build(r *rand.Rand, base int, ff, dirty string, nForms, maxDepth int, force
 			}
 		}
 	}
+	for f := range b.feats {
+		c.Feats = append(c.Feats, f)
+	}
+	sortStrings(c.Feats)
+	return c
+}
+
+// buildDeep renders one form nested depth levels deep (lists, vectors, quoted and
+// backquoted lists) with atoms on the way down and on the way up.
+func buildDeep(r *rand.Rand, base int, ff string, depth int) Case {
+	b := &builder{r: r, base: base, ff: ff, feats: map[string]bool{}, form: 0, pin: true}
+	type level struct {
+		kind string
+		pre  []string
+		post []string
+	}
+	levels := make([]level, depth)
+	if r.IntN(2) == 0 {
+		b.form = -1
+		b.ws()
+		b.form = 0
+	}
+	start := len(b.buf)
+	first := len(b.segs)
+	for d := 0; d < depth; d++ {
+		lv := &levels[d]
+		switch q := r.IntN(100); {
+		case q < 8 && 0 < d:
+			lv.kind = "vector"
+			b.open("vopen", "#(")
+		case q < 13:
+			lv.kind = "quote"
+			b.emit("prefix", "'")
+			b.pend++
+			b.open("open", "(")
+		case q < 16:
+			lv.kind = "backquote"
+			b.emit("prefix", "`")
+			b.pend++
+			b.open("open", "(")
+		default:
+			lv.kind = "list"
+			b.open("open", "(")
+		}
+		if r.IntN(100) < 30 {
+			lv.pre = append(lv.pre, b.simpleAtom())
+			b.ws()
+		} else if r.IntN(100) < 10 {
+			b.ws()
+		}
+	}
+	want := b.simpleAtom()
+	for d := depth - 1; 0 <= d; d-- {
+		lv := &levels[d]
+		if r.IntN(100) < 12 {
+			b.ws()
+			lv.post = append(lv.post, b.simpleAtom())
+		}
+		b.pend = 0
+		b.emit("close", ")")
+		b.depth--
+		elems := append(append(append([]string{}, lv.pre...), want), lv.post...)
+		want = "(" + join(elems) + ")"
+		switch lv.kind {
+		case "vector":
+			want = "#" + want
+		case "quote":
+			want = "{quote " + want + "}"
+		case "backquote":
+			want = "{backquote " + want + "}"
+		}
+	}
+	b.forms = append(b.forms, Form{S: start, E: len(b.buf), Want: want, Kind: "close", Head: b.segs[first].K})
+	b.form = -1
+	b.depth, b.pend = 0, 0
+	if r.IntN(2) == 0 {
+		b.ws()
+	}
+	b.feat(fmt.Sprintf("nesting-depth>=%d", depth/100*100))
+	c := Case{Text: string(b.buf), Base: base, FF: ff, Segs: b.segs, Forms: b.forms, Long: true}
 	for f := range b.feats {
 		c.Feats = append(c.Feats, f)
 	}
